@@ -48,6 +48,12 @@ def prop(case, rec):
 def run(ctx):
     ctx.search('gate', cases, prop, ctx.pick(24000, 500000))
 
+    def small(sc, rec):
+        if sc['searchers']:
+            return
+        prop(sc, rec)
+    orch.small_sweep(ctx, small, quick_stride=31)
+
 
 def replay(ctx, data):
     from vlib.core import Recorder
